@@ -36,7 +36,7 @@ func TestC10(t *testing.T) {
 	r := mon.NewRunner(t, "C10")
 	rnd := r.Rand()
 	var cases []mon.CaseSpec
-	reps := r.Pick(3, 12)
+	reps := r.Pick(3, 60)
 	for rep := 0; rep < reps; rep++ {
 		for _, p := range hx.AllProtos {
 			for _, tr := range hx.Transports {
